@@ -72,10 +72,11 @@ def run(ck):
     ck.assumptions += ["std::thread_local!, RefCell and atomics behave as documented",
                        "guards dropped in LIFO order on the thread that created them (the property's 'properly nested')"]
     ck.rule("C02.R1", "scope guard pairing: count inc/dec, construction, restore, unwind", floor=9)
-    ck.rule("C02.R2", "get_default: global fast path iff no scope is live anywhere", floor=2)
+    ck.rule("C02.R2", "get_default: global fast path iff no scope is live anywhere; no thread-local state => global default", floor=3)
     ck.rule("C02.R3", "per-thread default is written only by set_default/guard drop, never from get_global()", floor=3)
     ck.rule("C02.R4", "global default: single CAS-guarded write, published before INITIALIZED, guarded read", floor=5)
     ck.rule("C02.R5", "EXISTS set by both install paths", floor=2)
+    ck.rule("C02.R8", "what a callback may do does not depend on other threads' scopes: the fast and the slow path of get_default treat nested use alike", floor=2)
     ck.rule("C02.R7", "the count of live scopes cannot wrap: SCOPED_COUNT is at least pointer-sized", floor=2)
     ck.rule("C02.R6", "the re-entrancy flag taken by get_default/get_current is given back on every exit, unwinding included (RAII)", floor=3)
     for cfg in configs:
@@ -93,6 +94,7 @@ def run(ck):
             r6(ck, F)
             from rulekit.query import counter_width
             counter_width(ck, F, "C02.R7", ("tracing_core::dispatch::",))
+            r8(ck, F)
     ck.tag = ""
 
 
@@ -238,6 +240,29 @@ def r2(ck, F):
     gd = F.body(D + "get_default")
     if not ck.anchor("C02.R2", "get_default", gd):
         return
+    # a thread whose thread-local state is already destroyed (it is exiting) cannot have a live scope: what it emits from a
+    # TLS destructor belongs to the global default, exactly as on the fast path -- the AccessError fallback of
+    # get_default_slow must hand the callback get_global(), not the no-op dispatcher
+    slow = F.body(D + "get_default_slow")
+    if ck.anchor("C02.R2", "get_default_slow", slow):
+        uo = [t for bb, t in slow.calls() if t["callee"].get("method") in ("unwrap_or_else", "unwrap_or", "map_err", "or_else", "unwrap_or_default")]
+        fb = None
+        for t in uo:
+            for a in t["argv"][1:]:
+                o = slow.origin(a)
+                cd = o[1].get("agg", {}).get("closure") if o[0] == "agg" else (o[1].get("closure") if o[0] == "const" and isinstance(o[1], dict) else None)
+                if cd:
+                    fb = F.body(cd)
+        key = "get_default_slow without thread-local state (thread exit) falls back to the global default"
+        if fb is None:
+            ck.bad("C02.R2", key, where(slow.raw["sp"]), "no fallback closure found for a failed thread-local access (shape not recognised)", fn=slow.path)
+        else:
+            calls = [t["callee"].get("path") for bb, t in fb.calls()]
+            if D + "get_global" in calls and D + "Dispatch::none" not in calls:
+                ck.ok("C02.R2", key, fn=fb.path)
+            else:
+                ck.bad("C02.R2", key, where(fb.raw["sp"]), "the fallback hands the callback %s: an emission made while the thread's locals are being destroyed is discarded "
+                       "whenever any other thread holds a scope, but delivered to the global default when none does" % [c.rsplit("::", 1)[-1] for c in calls if c], fn=fb.path)
     rows = {}
     for p in PathEval(gd).run():
         if p.end != "return":
@@ -620,3 +645,44 @@ def r6(ck, F, rid="C02.R6"):
             ck.bad(rid, key, where(x.raw["sp"]), "; ".join(sorted(set(problems))[:3]), fn=x.path)
         else:
             ck.ok(rid, key, fn=x.path)
+
+
+def r8(ck, F):
+    """get_default picks its path from the process-wide SCOPED_COUNT, so anything the two paths do differently is a way for
+    *another thread's* scope to change what this thread observes. Two such differences, decided structurally:
+    (a) re-entrancy: the slow path hands a nested call the no-op dispatcher (can_enter), the fast path has no such guard;
+    (b) the slow path keeps the RefCell borrow of the thread's default alive across the callback, so a callback that opens
+        a scope (set_default -> RefCell::replace) panics there and works on the fast path."""
+    gd = F.body(D + "get_default")
+    slow = F.body(D + "get_default_slow")
+    if not (ck.anchor("C02.R8", "get_default", gd) and ck.anchor("C02.R8", "get_default_slow", slow)):
+        return
+    sc = F.closures_of(slow)
+    slow_guard = any(t["callee"].get("path") == D + "Dispatch::none" for x in sc for bb, t in x.calls()) and \
+        any("can_enter" in str(x.origin(t["argv"][0])) for x in sc for bb, t in x.calls() if t["callee"].get("method") in ("replace", "get", "set") and t["argv"])
+    fast_guard = any(t["callee"].get("method") in ("enter",) or "can_enter" in str(gd.origin(t["argv"][0])) for bb, t in gd.calls() if t["argv"])
+    if slow_guard and not fast_guard:
+        ck.bad("C02.R8", "re-entrant emission is delivered on the fast path and discarded on the slow path", where(gd.raw["sp"]),
+               "get_default_slow gives a nested get_default the no-op dispatcher (can_enter), the fast path `f(get_global())` does not: whether an emission made from inside "
+               "a collector callback or a get_default closure is recorded depends on whether any other thread holds a scope", fn=gd.path)
+    else:
+        ck.ok("C02.R8", "fast and slow path of get_default apply the same re-entrancy policy", fn=gd.path)
+    held = False
+    for x in sc:
+        bor = [bb for bb, t in x.calls() if t["callee"].get("path") == "core::cell::RefCell::<T>::borrow"]
+        cb = [bb for bb, t in x.calls() if t["callee"].get("method") in ("call_mut", "call_once", "call")]
+        for b_ in bor:
+            for c_ in cb:
+                if x.dominates(b_, c_):
+                    # is the Ref dropped between the borrow and the callback?
+                    o = x.term(b_).get("dest", {}).get("l")
+                    from rulekit.query import drop_blocks
+                    dropped_before = any(x.dominates(d, c_) for d in drop_blocks(x, o)) if o is not None else False
+                    if not dropped_before:
+                        held = True
+    if held:
+        ck.bad("C02.R8", "get_default_slow holds the borrow of the thread's default across the callback", where(slow.raw["sp"]),
+               "the RefCell<Option<Dispatch>> is still borrowed while the user callback runs: a callback that opens a scope (set_default replaces the slot) panics with "
+               "`already borrowed` on the slow path -- i.e. only while some other thread holds a scope", fn=slow.path)
+    else:
+        ck.ok("C02.R8", "get_default_slow releases the borrow of the thread's default before the callback", fn=slow.path)
